@@ -10,7 +10,7 @@ JSON form of a statement:
   ['IF', module|None, [[name, asname]...], level, line]
   ['X', id, [[owner_line, [stmt...]]...], line]
   ['O', id, line]                                      id < 0: a string-constant expression statement
-  ['P', dotted_name, line|None]                         profile.add_imported_function_or_module(<dotted>)
+  ['P', dotted_name, line|None|-1, flags]               profile.add_imported_function_or_module(<dotted>)
 
 Everything the transformers never look at is interned: equal ids <=> equal
 ast.dump (without positions) of the collapsed part.
@@ -25,6 +25,7 @@ class Interner:
     def __init__(self):
         self.pos = {}
         self.neg = {}
+        self.node_ids = {}     # id(node) of every node inside a registration statement -> count (shared nodes)
 
     def get(self, key, negative=False):
         tab = self.neg if negative else self.pos
@@ -96,7 +97,18 @@ def conv_stmt(s, it):
         return ['IF', s.module, [[a.name, a.asname] for a in s.names], s.level, line]
     pn = prof_call_name(s)
     if pn is not None:
-        return ['P', pn, line]
+        # the statement's location is the location of ALL its nodes: a node with another line, or a
+        # node object shared with another registration statement, makes the location -1 (nowhere);
+        # a statement spanning several lines is flagged (an inserted call must sit on one line)
+        nodes = [n for n in ast.walk(s) if 'lineno' in getattr(n, '_attributes', ())]
+        lines_ = {getattr(n, 'lineno', None) for n in nodes}
+        shared = False
+        for n in ast.walk(s):
+            it.node_ids[id(n)] = it.node_ids.get(id(n), 0) + 1
+            shared = shared or it.node_ids[id(n)] > 1
+        multi = any(getattr(n, 'end_lineno', None) not in (None, getattr(n, 'lineno', None)) for n in nodes)
+        loc = line if (len(lines_) == 1 and not shared) else -1
+        return ['P', pn, loc, dict(multiline=multi, shared=shared, mixed=len(lines_) != 1)]
     # compound statements: every nested statement list, in generic_visit (field) order
     bodies = []
     hdr = [type(s).__name__]
@@ -127,6 +139,7 @@ def conv_stmt(s, it):
 
 
 def conv_module(tree, it):
+    it.node_ids = {}
     return conv_body(tree.body, it)
 
 
